@@ -134,11 +134,14 @@ impl Context<'_> {
             // type name would be compared against the exact symbol it
             // resolves to and never match.
             if historical && !matches!(column_of(kind, key), Some("__id")) {
-                let slot = match slot {
-                    Slot::Value(value) => {
+                // Only the keys the index path would have normalized: a plain
+                // field keeps its value as written (it may be a number or a
+                // boolean), exactly as in a present-day read.
+                let slot = match (slot, column_of(kind, key)) {
+                    (Slot::Value(value), Some(_)) => {
                         Slot::Value(Json::String(self.matcher_text(kind, key, &value)?))
                     }
-                    bind => bind,
+                    (slot, _) => slot,
                 };
                 post.push((key.clone(), slot));
                 continue;
